@@ -143,6 +143,7 @@ void set_on_proc_death(const std::function<void(int)> &f);   // called once per 
 void set_on_idle(const std::function<bool()> &f);            // no runnable task: return true if something was woken
 void set_on_decision(const std::function<void()> &f);        // called at every decision point before choosing
 void set_on_point(const std::function<void(int, long)> &f);   // called in the task at every decision point, before the choice (may kill)
+void set_on_proc_switch(const std::function<void(int, int)> &f);  // called when the CPU passes from a task of one simulated process to a task of another (from, to)
 void set_on_uncaught(const std::function<void(int, const std::string &)> &f);  // exception left a task function
 
 // generic blocking
